@@ -705,20 +705,39 @@ def r3_decoder(ctx, mi) -> None:
 def r4_labels(ctx, mi) -> None:
   ci = mi.classes.get('DefaultModelOutputConverter')
   conv, tom = ci.methods['convert'], ci.methods['to_metrics']
+  from vzstatic.pathcond import neval, NoValue
+
   def factors(fn):
+    """Sign factors applied by multiplication, each as the pair (value when flipping, value when not): a factor is an
+    operand of `*` / `*=` (followed through locals bound once) that evaluates to a number under both settings of the
+    flip flag."""
     out = []
+
+    def value_pair(e):
+      e = flow.resolve_local(fn.node, e)
+      if not any(isinstance(x, ast.Attribute) and 'flip' in x.attr for x in ast.walk(e)):
+        return None
+      flag = next(unparse(x, 0) for x in ast.walk(e) if isinstance(x, ast.Attribute) and 'flip' in x.attr)
+      try:
+        vs = tuple(neval(e, {flag: b}) for b in (True, False))
+      except NoValue:
+        return ('?', unparse(e, 40))
+      return vs if all(isinstance(v, (int, float)) and not isinstance(v, bool) for v in vs) else ('?', unparse(e, 40))
     for x in ast.walk(fn.node):
       if isinstance(x, ast.BinOp) and isinstance(x.op, ast.Mult):
-        for s in (x.left, x.right):
-          if isinstance(s, ast.IfExp):
-            out.append(unparse(s, 0))
+        for s_ in (x.left, x.right):
+          vp = value_pair(s_)
+          if vp is not None:
+            out.append(vp)
       if isinstance(x, ast.AugAssign) and isinstance(x.op, ast.Mult):
-        out.append('inplace:' + unparse(x.value, 0))
+        vp = value_pair(x.value)
+        out.append(('inplace',) + (vp or (unparse(x.value, 40),)))
     return out
   fc, ft = factors(conv), factors(tom)
-  same = fc == ft == ['-1 if self._should_flip_sign else 1']
-  ctx.check(same, 'R4', 'convert / to_metrics use the same sign factor', tom.node, f'{fc}',
-            f'convert multiplies by {fc}, to_metrics by {ft}: labels -> metrics -> labels is not the identity under one of the sign conventions',
+  same = fc == ft == [(-1, 1)]
+  ctx.check(same, 'R4', 'convert / to_metrics use the same sign factor', tom.node, f'{fc} (flip, no flip) in both directions',
+            f'convert multiplies by {fc}, to_metrics by {ft} (value when flipping, value when not): labels -> metrics -> labels is not '
+            'the identity under one of the sign conventions',
             construct=f'{fc}/{ft}', func=ci.qualname)
   b = AliasAnalysis(ctx, tom, tom.params[1], set()).run()
   ctx.check(not b, 'R4', 'to_metrics does not write into its argument', tom.node, 'in-place arithmetic only on private copies',
